@@ -16,6 +16,7 @@ func init() {
 	vrt.Register("C17_content_type", ContentType)
 	vrt.Register("C17_content_for_of", ContentForOf)
 	vrt.Register("C17_block_helper", BlockHelper)
+	vrt.Register("C17_block_left_early", BlockLeftEarly)
 	vrt.Register("C17_nested_partials", NestedPartials)
 	vrt.Register("C17_shared_data_map", SharedDataMap)
 	vrt.Register("C17_content_of_in_scopes", ContentOfInScopes)
@@ -222,6 +223,37 @@ func BlockHelper() {
 		vrt.Assert(r.got[0] == want, "a block helper receives exactly what its block renders to")
 		vrt.Assert(got == "[{"+want+"}]", "and the helper's result is inserted unescaped")
 	}
+	vrt.Cover("done")
+}
+
+// ... also when the block is left early: the helper is called in a loop body and its
+// block reaches continue or break, or in a function body and its block reaches
+// return. What the block rendered up to there is what the helper receives (what
+// the statement compares with: the same source inline renders that text too).
+func BlockLeftEarly() {
+	e := mkEnv()
+	r := &blockRec{}
+	ctx := e.ctx(true, nil)
+	ctx.Set("rec", r.rec)
+	exits := []string{"continue", "break"}
+	x := exits[vrt.Choice(len(exits))]
+	body := "a<%= v %>" + e.lit + "<% " + x + " %>b<%= v %>"
+	var in string
+	switch vrt.Choice(3) {
+	case 0:
+		in = "<%= for (i) in [1] { %><%= rec() { %>" + body + "<% } %><% } %>"
+	case 1:
+		in = "<%= for (i) in [1] { %><%= if (true) { %><%= rec() { %>" + body + "<% } %><% } %><% } %>"
+	default:
+		in = "<%= for (i) in [1] { %><%= rec() { %><%= if (true) { %>" + body + "<% } %><% } %><% } %>"
+	}
+	vrt.Note("input", in)
+	_, err := plush.Render(in, ctx)
+	want, werr := plush.Render("<%= for (i) in [1] { %>"+body+"<% } %>", e.ctx(true, nil))
+	vrt.Assert(werr == nil, "the inline source renders")
+	vrt.Assert(err == nil, "a block that is left early renders")
+	vrt.Assert(len(r.got) == 1, "the block is rendered once per Block() call")
+	vrt.Assert(r.got[0] == want, "a block helper receives exactly what its block renders to, also when the block is left through continue or break")
 	vrt.Cover("done")
 }
 
